@@ -116,6 +116,11 @@ func (valdec mapDecoder) decodeListAsMap(dec *Decoder, p interface{}, tag byte) 
 	vp := valdec.vt.UnsafeNew()
 	vt := valdec.vt.Type1()
 	for i := 0; i < count; i++ {
+		if i > 0 {
+			// a fresh value slot per entry: decoding into the previous entry's slot would
+			// reuse (and overwrite) its slice backing array, map or pointer target.
+			vp = valdec.vt.UnsafeNew()
+		}
 		valdec.convertKey(i, kp)
 		valdec.decodeValue(dec, vt, vp)
 		valdec.t.UnsafeSetIndex(mp, kp, vp)
@@ -133,6 +138,12 @@ func (valdec mapDecoder) decodeMap(dec *Decoder, p interface{}) {
 	kt := valdec.kt.Type1()
 	vt := valdec.vt.Type1()
 	for i := 0; i < count; i++ {
+		if i > 0 {
+			// fresh key and value slots per entry: decoding into the previous entry's slots
+			// would reuse (and overwrite) its slice backing array, map or pointer target.
+			kp = valdec.kt.UnsafeNew()
+			vp = valdec.vt.UnsafeNew()
+		}
 		valdec.decodeKey(dec, kt, kp)
 		valdec.decodeValue(dec, vt, vp)
 		valdec.t.UnsafeSetIndex(mp, kp, vp)
